@@ -27,6 +27,8 @@ EXPLANATION = ('R18.1 from every kill point (prefix of the effect trace) the res
 
 TECHNIQUE += '; scenarios with a post-processing function (its directory and product file are part of the modelled file system)'
 
+TECHNIQUE += '; numpy archives modelled as mappings with their member list, dtype tests and scalar conversions (np.float64 of a complex value), study results carrying a real and a complex number'
+
 def run(chk):
     repo = Repo(chk.repo)
     m = repo.by_path('TidalPy/utilities/multiprocessing/multiprocessing.py')
